@@ -9,6 +9,7 @@ import BespokeVerif.Model.Constraint
 import BespokeVerif.Model.Instr
 import BespokeVerif.Model.Expr
 import BespokeVerif.Model.Layout
+import BespokeVerif.Model.Subst
 open Lean BV
 
 namespace Drv
@@ -305,6 +306,27 @@ def opCondTree (j : Json) : R Json := do
     | .error e => jErr e
   return Json.mkObj [("spec", js), ("impl", ji)]
 
+/-- op "substprog": preprocessor symbol substitution over a sequence of #define / ordinary lines -/
+def opSubstProg (j : Json) : R Json := do
+  let pre ← match fldOpt j "pre" with
+    | none => pure []
+    | some a => do (← a.getArr?).toList.mapM fun e => do
+        let x ← e.getArr?
+        pure ((← x[0]!.getStr?), segment (← x[1]!.getStr?).toList)
+  let items ← (← arr j "items").toList.mapM fun it => do
+    let d ← str it "d"
+    if d == "define" then pure (SItem.define (← str it "name") (segment (← str it "text").toList))
+    else pure (SItem.line (segment (← str it "text").toList))
+  -- the initial table is built with the same duplicate check
+  let t0 : Except Err STab := pre.foldlM (fun t (n, v) => addS t n v) []
+  let out (f : STab → List Seg → Except Err (List Seg)) : Json :=
+    match t0 with
+    | .error e => jErr e
+    | .ok t => match substProg f t items with
+      | .error e => jErr e
+      | .ok ls => Json.mkObj [("lines", Json.arr (ls.map fun l => Json.str (unsegment l)).toArray)]
+  return Json.mkObj [("impl", out resolve), ("spec", out expand)]
+
 def dispatch (j : Json) : R Json := do
   let op ← str j "op"
   match op with
@@ -313,6 +335,7 @@ def dispatch (j : Json) : R Json := do
   | "expr" => opExpr j
   | "asm" => opAsm j
   | "condtree" => opCondTree j
+  | "substprog" => opSubstProg j
   | "ping" => pure (Json.mkObj [("pong", Json.bool true)])
   | _ => throw s!"unknown op {op}"
 
